@@ -16,6 +16,12 @@ RECURSIVE BuildUnits(_, _)
 BuildUnits(arr, i) == IF i > Len(arr) THEN [u \in {} |-> VNone]
                       ELSE (arr[i].name :> ValOfJson(arr[i].val)) @@ BuildUnits(arr, i + 1)
 
+\* physical quantities as names of dimensionalities (value 1): the vocabulary of conformance-error suggestions
+RECURSIVE BuildQuant(_, _)
+BuildQuant(arr, i) == IF i > Len(arr) THEN [u \in {} |-> VNone]
+                      ELSE (arr[i].name :> VNum(QOne, DimOfJson(arr[i].dims))) @@ BuildQuant(arr, i + 1)
+QuantEnvFromJson(j) == [EmptyEnv EXCEPT !.units = BuildQuant(j.quantities, 1), !.closed = FALSE]
+
 EnvFromJson(j, closed, textbook) ==
   [base |-> {j.base[i] : i \in DOMAIN j.base},
    units |-> BuildUnits(j.units, 1),
@@ -23,7 +29,9 @@ EnvFromJson(j, closed, textbook) ==
    ans |-> VNone,
    subst |-> {j.substnames[i] : i \in DOMAIN j.substnames},
    closed |-> closed,
-   textbook |-> textbook]
+   textbook |-> textbook,
+   hasq |-> "quantities" \in DOMAIN j,
+   qenv |-> IF "quantities" \in DOMAIN j THEN QuantEnvFromJson(j) ELSE EmptyEnv]
 
 -----------------------------------------------------------------------------
 (* conversion targets the property speaks of: units, products, quotients, integer powers,
@@ -67,7 +75,9 @@ SecondDim == DBase(W_s)
 
 VConv(x) == [t |-> "conv", x |-> x]
 VList(v, us) == [t |-> "list", v |-> v, us |-> us]
-VConfErr(recip) == [t |-> "err", c |-> "conformance", recip |-> recip]
+VConfErr(recip) == [t |-> "err", c |-> "conformance", recip |-> recip, hasdims |-> FALSE]
+VConfErrD(dtop, dbot) == [t |-> "err", c |-> "conformance", recip |-> DIsEmpty(DMul(dtop, dbot)), hasdims |-> TRUE,
+                          dtop |-> dtop, dbot |-> dbot]
 
 ConvertList(top, names, env) ==
   LET us == LookupAll(env, names, 1, <<>>) IN
@@ -95,7 +105,7 @@ QueryValue(q, env) ==
                      IF bot.t = "err" THEN bot
                      ELSE IF ~TargetOK(c.e) THEN VUnknown
                      ELSE IF top.t # "num" \/ bot.t # "num" THEN VUnknown
-                     ELSE IF ~DEq(top.d, bot.d) THEN VConfErr(DIsEmpty(DMul(top.d, bot.d)))
+                     ELSE IF ~DEq(top.d, bot.d) THEN VConfErrD(top.d, bot.d)
                      ELSE IF QIsZero(bot.v) THEN VErr("generic")
                      ELSE VConv(QDiv(top.v, bot.v))
            [] c.c = "degree" ->
@@ -130,6 +140,23 @@ AllRational(list) == \A i \in DOMAIN list : list[i].raw.t = "num"
 
 HasRecip(o) == \E i \in DOMAIN o.suggestions : o.suggestions[i] = "Reciprocal conversion, invert one side"
 
+\* "otherwise naming the missing factor": some suggestion says to multiply (divide) the left side by a factor X whose
+\* dimensionality is d_target / d_value (its reciprocal), and likewise for the right side; X is written with quantity
+\* names, quoted base units, powers and one `/`, and is read by the specification's own parser.
+DescDims(txt, qenv) == LET v == Ev(ParseExprText(txt), qenv) IN IF v.t = "num" THEN [ok |-> TRUE, d |-> v.d] ELSE [ok |-> FALSE, d |-> DEmpty]
+Names1(txt, pfx, want, qenv) ==
+  IsPrefixSeq(pfx, txt) /\ LET dd == DescDims(DropSeq(txt, Len(pfx)), qenv) IN dd.ok /\ DEq(dd.d, want)
+NamesFactor(o, dtop, dbot, qenv) ==
+  LET needL == DDiv(dbot, dtop)        \* multiply the left side by this
+      needR == DDiv(dtop, dbot)        \* multiply the right side by this
+      S == o.suggestions_cp
+  IN /\ \E i \in DOMAIN S : Names1(S[i], P_mul_left, needL, qenv) \/ Names1(S[i], P_div_left, DRecip(needL), qenv)
+     /\ \E i \in DOMAIN S : Names1(S[i], P_mul_right, needR, qenv) \/ Names1(S[i], P_div_right, DRecip(needR), qenv)
+FactorSilent(o, qenv) ==    \* a suggestion the specification cannot read (a name outside the quantity table): not judged
+  \E i \in DOMAIN o.suggestions_cp :
+     \E pfx \in {P_mul_left, P_div_left, P_mul_right, P_div_right} :
+        IsPrefixSeq(pfx, o.suggestions_cp[i]) /\ ~DescDims(DropSeq(o.suggestions_cp[i], Len(pfx)), qenv).ok
+
 \* the automatic year/week/day/hour/minute/second breakdown of a time value (law of C09)
 DurationOK(val, o, env) ==
   IF val.t # "num" \/ ~DEq(val.d, SecondDim) \/ o.t # "num" THEN TRUE
@@ -152,6 +179,7 @@ QAgree(spec, o, env) ==
     [] spec.t = "err" /\ spec.c = "conformance" ->
          /\ o.t = "err" /\ o.c = "conformance"
          /\ (spec.recip <=> HasRecip(o))
+         /\ (spec.hasdims /\ ~spec.recip /\ env.hasq /\ ~FactorSilent(o, env.qenv) => NamesFactor(o, spec.dtop, spec.dbot, env.qenv))
     [] OTHER -> Agree(spec, o) /\ DurationOK(spec, o, env)
 
 \* drift-level: the function form of the unit list (the code's own algorithm)
